@@ -107,9 +107,16 @@ def gen(seed):
             e0['end_on_sleep'] = True
             plan = [e for e in plan if not (e.get('fn') == 'thread_end'
                                             and e.get('tname') == e0['tname'])]
-    return {'property': ID, 'seed': seed, 'world': world, 'plan': plan, 'opt': opt,
+    spec = {'property': ID, 'seed': seed, 'world': world, 'plan': plan, 'opt': opt,
             'ignore': ign, 'sched': {'prng': seed},
             'knobs': {'p_reuse': rng.choice([0.0, 0.5, 1.0, 1.0])}}
+    if seed % 6 == 1:
+        # a history of runs in ONE interpreter (an embedding program, the project's own
+        # doctests): an earlier run was given ignore patterns - this run has only its own
+        spec['earlier_run_ignores'] = rng.choice([['.*'], ['leak', 'T'], ['Dummy', 'Thread'],
+                                                  ['(?i)[a-z]']])
+        spec['reuse_modules'] = True
+    return spec
 
 
 def expected_reports(spec, res, tw):
@@ -238,6 +245,12 @@ def run(spec, ctx):
         return rt
     simrt.install = install
     try:
+        if spec.get('earlier_run_ignores'):
+            pre = core.execute(spec, W.argv(dict(spec['opt'], list=True), src) +
+                               ['--ignore-new-thread=%s' % x for x in spec['earlier_run_ignores']],
+                               label='earlier-run')
+            if pre.raised:
+                raise core.HarnessError('the earlier (listing) run failed: %r' % (pre.raised,))
         res = core.execute(spec, W.argv(spec['opt'], src))
     finally:
         simrt.install = orig_install
